@@ -193,7 +193,45 @@ def c07(tier, seed):
                   min_nontrivial=1000, exhaustive=True)
 
 
+def c10(tier, seed):
+    res = common.Result()
+    if tier == "quick":
+        res.absorb(run_engine(build("dbg"), "layout", n(10000), seed, {}, build_name="dbg"))
+    else:
+        res.absorb(run_engine(build("rel"), "layout", n(300000), seed, {}, build_name="rel"))
+        res.absorb(run_engine(build("dbg"), "layout", n(30000), seed + 3, {}, build_name="dbg"))
+    triage(res)
+    return finish("C10", tier, seed, "exploration", res,
+                  "generated programs (one in ten made statically invalid) printed from their token list in the conventional layout and in 8 re-layouts: single line; one token per line with LF, CRLF, lone CR; tabs; no blank where none is needed; comments (containing keywords, quotes, `#`, back-slashes, multi-byte characters) after random tokens with each line ending; random mixtures of blanks, tabs, form feeds, blank lines and comments, with the words of `if to say` / `if not so` / `small pass` separated by arbitrary white-space runs; plus a variant with redundant parentheses around random sub-expressions. Precondition checked with the crate's own lexer: the re-layout must lex to the identical token sequence, otherwise it is discarded and counted. Oracle: acceptance, printed values and ending must equal those of the conventional layout. Non-trivial = at least 6 re-layouts compared, the program contains a multi-word keyword and at least one statement boundary that only token kinds mark; distinct = hash of the conventional text",
+                  ["the oracle is the program itself; the token-sequence precondition trusts the crate's lexer only to compare two texts, not to be right",
+                   "comments are never placed between the words of a multi-word keyword (the property allows only white space there)"],
+                  min_nontrivial=50)
+
+
+def c09(tier, seed):
+    res = common.Result()
+    dbg = build("dbg")
+    rm = run_engine(dbg, "static", 1000000, seed, {"stage": "matrix"}, build_name="dbg")
+    matrix = {k: rm.extra.get(k) for k in ("matrix_size", "rules", "contexts")}
+    res.absorb(rm)
+    if tier == "quick":
+        res.absorb(run_engine(dbg, "static", n(4000), seed, {"stage": "random"}, build_name="dbg"))
+    else:
+        res.absorb(run_engine(build("rel"), "static", n(100000), seed, {"stage": "random"}, build_name="rel"))
+        res.absorb(run_engine(dbg, "static", n(20000), seed + 11, {"stage": "random"}, build_name="dbg"))
+    triage(res)
+    res.extra.update(matrix)
+    return finish("C09", tier, seed, "exploration", res,
+                  "stage matrix (enumerated completely on every run): 84 snippets (77 single-rule violations of the documented static rules: undeclared read/write/placeholder in statement, argument, array, index and condition position, use before `make`, use after the declaring block, use of a callee's local or parameter, unknown function, function of a sibling/inner block, arity +-1 for user functions, global built-ins and methods of literally typed receivers, comot/next outside a loop, return outside a function, duplicate function, duplicate parameter, reserved or built-in name as variable/function/parameter, literally mistyped operand of every operator class, non-boolean condition, non-array index base, non-number index, unknown method of a literal receiver; and 7 valid controls) x 16 nesting contexts (top level, nested blocks, if/else arms, loops, functions, function defined in a loop, loop in a function, function in a function, after return, after comot). Expected verdict per cell from the documented rule (comot/next are valid exactly inside a loop of the same function body, return exactly inside a function). A violating cell must be rejected with an error diagnostic whose category text equals the crate's own category string for that rule; a valid cell must be accepted. Stage random: the same snippets inserted at a random position of a random block of generated valid programs (which themselves must be accepted). Non-trivial = the snippet sits at nesting depth >= 1; distinct = hash of the text",
+                  ["category strings are taken from the crate (SemanticError::X.as_str()), so rewording is not an alarm but a swapped category is",
+                   "extra cascaded diagnostics are allowed; only the presence of the expected category is required",
+                   "type rules are asserted only on literals and on variables declared by a literal and never reassigned"],
+                  min_nontrivial=500, exhaustive=True)
+
+
 CHECKS = {
+    "C09": c09,
+    "C10": c10,
     "C07": c07,
     "C06": c06,
     "C02": c02,
